@@ -141,6 +141,7 @@ func nestedUDP(depth, qsize int, how string) NestedRec {
 	defer close(injq)
 	inject := func(raw []byte) { injq <- raw }
 	nestedReqs := make([]memnet.Dgram, depth+1)
+	outerMID := make([]int32, depth+1)
 	mid := int32(1000)
 	for d := depth; d >= 1; d-- {
 		mid++
@@ -150,6 +151,7 @@ func nestedUDP(depth, qsize int, how string) NestedRec {
 			mid = int32(uint16(u.CC.VerifState().NextMID + 1))
 		}
 		tok := []byte{0xA0, byte(d)}
+		outerMID[d] = mid
 		inject(memnet.Build(message.Confirmable, int(codes.GET), mid, tok, message.Options{{ID: message.URIPath, Value: []byte(fmt.Sprintf("n%d", d))}}, nil))
 		q, ok := waitOut(fmt.Sprintf("nested GET /q%d", d), func(x memnet.Dgram) bool { return x.Code == int(codes.GET) && pathOf(x) == fmt.Sprintf("/q%d", d) })
 		if !ok {
@@ -168,6 +170,13 @@ func nestedUDP(depth, qsize int, how string) NestedRec {
 		// acknowledge the nested request (the response will come separately), so that the
 		// connection's NSTART=1 budget does not keep the next nested request from being sent
 		inject(memnet.Build(message.Acknowledgement, int(codes.Empty), q.MID, nil, nil, nil))
+		if how == "dupouter" {
+			// the peer has no answer yet and retransmits its request (same message ID) while the handler waits for its nested
+			// request: the copy is not processed a second time - and it does not stall the connection either
+			// (a retransmission comes seconds later: the handler has long settled down to wait for the nested response)
+			time.Sleep(5 * time.Millisecond)
+			inject(memnet.Build(message.Confirmable, int(codes.GET), outerMID[d], tok, message.Options{{ID: message.URIPath, Value: []byte(fmt.Sprintf("n%d", d))}}, nil))
+		}
 		// while the handler is blocked an unrelated request must still be served
 		mid++
 		ptok := []byte{0xB0, byte(d)}
@@ -554,7 +563,7 @@ func RunNested(out string) {
 			w.Put(obsNested("tcp", q))
 			w.Put(obsNested("udp", q))
 			for d := 1; d <= 3; d++ {
-				for _, how := range []string{"con", "non", "blockwise", "lateack", "samemid", "samemid", "samemid", "samemid"} {
+				for _, how := range []string{"con", "non", "blockwise", "lateack", "dupouter", "samemid", "samemid", "samemid", "samemid"} {
 					w.Put(nestedUDP(d, q, how))
 				}
 				w.Put(nestedTCP(d, q, "con"))
